@@ -61,7 +61,8 @@ PAIRS_SHARED = [('iter_verbose_v2_a', 'iter_verbose_v2_b', 2), ('seq_small', 'ma
                 ('make_2_align', 'make_7_version', 1), ('make_m3_kanji', 'make_1h', 1), ('seq_small', 'seq_version', 1),
                 ('save_png_colorful', 'save_svg_colorful', 1), ('save_ppm_colormap', 'save_png_palette', 1), ('make_hanzi', 'make_eci', 1),
                 ('helper_epc', 'helper_epc_b', 1), ('matrix_iter_verbose', 'iter_verbose_v2_a', 1), ('cli_terminal', 'make_parts', 1),
-                ('make_1h', 'make_1h_other', 1), ('save_pdf', 'save_eps', 1)]
+                ('make_1h', 'make_1h_other', 1), ('save_pdf', 'save_eps', 1), ('cli_save_png', 'cli_save_svg', 1), ('save_svg_twins', 'save_ppm_twins', 1),
+                ('helper_epc', 'helper_epc_tie', 1), ('make_m3_byte', 'make_2_align', 1)]
 PAIRS_LARGE = [('save_ppm_colormap', 'save_ppm_colormap_b'), ('save_png_palette', 'save_svg'),
                ('seq_count', 'make_m2_alnum'), ('save_png_colorful', 'make_m1_numeric'), ('make_m2_alnum', 'fail_overflow')]
 SAME_SHAPE = {('make_m1_numeric', 'make_m1_other'), ('ppm_small_a', 'ppm_small_b'), ('iter_verbose_v2_a', 'iter_verbose_v2_b'), ('make_1h', 'make_1h_other')}
@@ -207,20 +208,32 @@ def _prologue(a, b):
         O.prologue_shared()             # one symbol created before the threads start; both threads work on the SAME object
 
 
+# after the two threads have finished, these operations run sequentially in the same process: state that a race left behind
+# (a poisoned cache, a shifted shared sequence) shows in symbols created afterwards even where both concurrent results were right
+EPILOGUE = ('make_2_align', 'make_1h', 'make_m2_alnum', 'make_m3_kanji', 'seq_small', 'make_7_version')
+
+
+def _epilogue(gran):
+    if not (gran.startswith('shared') or '@' in gran):
+        return ()           # (line / call / opcode pairs have tens of thousands of schedules: the epilogue is run on the reduced ones)
+    return tuple(O.digest(O.observe(n)[0]) for n in EPILOGUE) + (hist.library_state_hash(),)
+
+
 def _profile_child(a, b, gran):
     _prologue(a, b)
     ra, rb = O.digest(O.observe(a)[0]), O.digest(O.observe(b)[0])
-    return ra, rb
+    return (ra, rb) + _epilogue(gran)
 
 
 def _exec_child(a, b, gran, start, switches):
     _prologue(a, b)
     libdir = LIBDIR
+    gran0 = gran
     if '@' in gran:
         gran, fname = gran.split('@')
         libdir = os.path.join(LIBDIR, fname)
     res, st, pre = sched.Execution([_fn(a), _fn(b)], libdir, start, switches, gran).run()
-    return tuple(O.digest(r) for r in res), tuple(st), pre, [repr(r)[:160] for r in res]
+    return tuple(O.digest(r) for r in res) + _epilogue(gran0), tuple(st), pre, [repr(r)[:160] for r in res]
 
 
 def forked(fn, *args):
@@ -235,17 +248,25 @@ def pair_profile(a, b, gran):
     worker, so that every execution starts from the library's initial state (lazily built globals not yet built)."""
     key = (a, b, gran)
     if key not in _PAIR_CACHE:
-        ra, rb = forked(_profile_child, a, b, gran)
+        ref = forked(_profile_child, a, b, gran)
         d1, steps, _, _ = forked(_exec_child, a, b, gran, 0, ())
         d2, steps2, _, _ = forked(_exec_child, a, b, gran, 1, ())
-        ok = d1 == (ra, rb) and d2 == (ra, rb)
-        _PAIR_CACHE[key] = ('ok' if ok else 'unstable', (ra, rb), steps, steps2)
+        ok = d1 == ref and d2 == ref
+        _PAIR_CACHE[key] = ('ok' if ok else 'unstable', ref, steps, steps2)
     return _PAIR_CACHE[key]
 
 
+def _profile_task(item):
+    a, b, gran, bound = item
+    return pair_profile(a, b, gran)
+
+
 def _sched_task(task):
-    a, b, gran, scheds = task
-    status, refs, steps, _ = pair_profile(a, b, gran)
+    a, b, gran, scheds = task[:4]
+    if len(task) > 4:
+        status, refs, steps = 'ok', task[4], None          # references computed once by the profile phase
+    else:
+        status, refs, steps, _ = pair_profile(a, b, gran)
     out = []
     for (start, switches) in scheds:
         try:
@@ -256,7 +277,8 @@ def _sched_task(task):
                 # replay twice (each from the initial state): identical observations required before the failure is trusted
                 again = [forked(_exec_child, a, b, gran, start, switches) for _ in range(2)]
                 rec['replay_identical'] = all(x[0] == digs for x in again)
-                rec['which'] = [i for i in (0, 1) if digs[i] != refs[i]]
+                rec['which'] = [i for i in (0, 1) if digs[i] != refs[i]] or ['afterwards: %s' % ', '.join(
+                    (EPILOGUE + ('library state',))[i - 2] for i in range(2, len(refs)) if digs[i] != refs[i])]
                 rec['observed'] = shown
             out.append(rec)
         except runner.CheckerError as e:
@@ -445,9 +467,12 @@ def main(tier, seed, jobs, t0):
         sched_total = 0
         sched_detail = []
         outcomes = set()
-        for (a, b, gran, bound) in plan:
-            tp = time.time()
-            status, prefs, steps, _s2 = pool.apply(pair_profile, (a, b, gran))
+        tp = time.time()
+        profiles = pool.map(_profile_task, plan, chunksize=1)
+        phase['schedule_profiles_s'] = round(time.time() - tp, 1); tp = time.time()
+        tasks = []
+        per_pair = {}
+        for (a, b, gran, bound), (status, prefs, steps, _s2) in zip(plan, profiles):
             if status != 'ok':
                 acc.violation('thread-unstable/%s+%s' % (a, b), 'pair (%s, %s): even the two non-preemptive schedules disagree with the sequential '
                               'references or with each other (steps %r)' % (a, b, steps), ('sched', a, b, gran, 0, []))
@@ -460,29 +485,32 @@ def main(tier, seed, jobs, t0):
                 # the same set of interleavings up to renaming the data) - the thorough tier runs both halves
                 allsch = [sc for sc in allsch if sc[0] == 0 or not sc[1]]
             random.Random(seed).shuffle(allsch)
-            size = max(1, min(200, len(allsch) // (jobs * 4) or 1))
-            tasks = [(a, b, gran, allsch[i:i + size]) for i in range(0, len(allsch), size)]
-            nbad = 0
-            n = 0
-            for (_a, _b, _g, _st, _steps, recs) in pool.imap_unordered(_sched_task, tasks):
-                for rec in recs:
-                    n += 1
-                    acc.evals += 1
-                    outcomes.add((a, b, rec['bad']))
-                    if rec['bad']:
-                        nbad += 1
-                        key = 'thread-interference/%s+%s' % (a, b)
-                        msg = ('threads (%s || %s), %s granularity, start=%d, preemption points %r: %s'
-                               % (a, b, gran, rec['start'], rec['switches'],
-                                  rec.get('deadlock') or ('result of thread(s) %r differs from the sequential reference; replayed twice identically: %r'
-                                                          % (rec.get('which'), rec.get('replay_identical')))))
-                        acc.violation(key, msg, ('sched', a, b, gran, rec['start'], rec['switches']), obs=rec.get('observed'))
-            want = len(allsch)
-            if n != want:
-                raise runner.CheckerError('pair %s/%s: executed %d schedules, enumeration predicts %d' % (a, b, n, want))
-            sched_total += n
-            sched_detail.append({'seconds': round(time.time() - tp, 1), 'pair': [a, b], 'granularity': gran, 'preemption_bound': bound, 'scheduling_points': list(steps), 'schedules': n,
-                                 'failing': nbad})
+            size = max(1, min(100, len(allsch) // (jobs * 2) or 1))
+            for i in range(0, len(allsch), size):
+                tasks.append((a, b, gran, allsch[i:i + size], prefs))
+            per_pair[(a, b, gran)] = {'pair': [a, b], 'granularity': gran, 'preemption_bound': bound, 'scheduling_points': list(steps),
+                                      'schedules': 0, 'failing': 0, 'expected': len(allsch)}
+        random.Random(seed).shuffle(tasks)
+        for (a, b, gran, _st, _steps, recs) in pool.imap_unordered(_sched_task, tasks):
+            pp = per_pair[(a, b, gran)]
+            for rec in recs:
+                pp['schedules'] += 1
+                acc.evals += 1
+                outcomes.add((a, b, rec['bad']))
+                if rec['bad']:
+                    pp['failing'] += 1
+                    key = 'thread-interference/%s+%s' % (a, b)
+                    msg = ('threads (%s || %s), %s granularity, start=%d, preemption points %r: %s'
+                           % (a, b, gran, rec['start'], rec['switches'],
+                              rec.get('deadlock') or ('result of thread(s) %r differs from the sequential reference; replayed twice identically: %r'
+                                                      % (rec.get('which'), rec.get('replay_identical')))))
+                    acc.violation(key, msg, ('sched', a, b, gran, rec['start'], rec['switches']), obs=rec.get('observed'))
+        for pp in per_pair.values():
+            if pp['schedules'] != pp.pop('expected'):
+                raise runner.CheckerError('pair %r: executed %d schedules, the enumeration predicts another number' % (pp['pair'], pp['schedules']))
+            sched_total += pp['schedules']
+            sched_detail.append(pp)
+        phase['schedules_s'] = round(time.time() - tp, 1); tp = time.time()
         extra['schedules'] = sched_total
         extra['phase_seconds'] = phase
         extra['schedule_pairs'] = sched_detail
